@@ -99,6 +99,16 @@ class World:
         self.hc = HashClient(self.srvs, socket_module=self.net.module(), retry_attempts=ra, retry_timeout=RT,
                              dead_timeout=DT, ignore_exc=ie, default_noreply=False, connect_timeout=1, timeout=1)
         self.seq = 0
+        # the rotation as it is at the moment a key is routed (a server can be revived and evicted
+        # again within one call, so the rotation before/after the call is not enough)
+        self.rot_seen = []
+        orig_get_node = self.hc.hasher.get_node
+
+        def get_node(key):
+            self.rot_seen.append(set(map(str, self.hc.hasher.nodes)))
+            return orig_get_node(key)
+
+        self.hc.hasher.get_node = get_node
         self.contacts = {a: [] for a in self.addr}  # contacts (time) made while the server was failing
         self.ever_failed = set()
         self.ncall = 0
@@ -163,6 +173,7 @@ class World:
         failed0 = set(hc._failed_clients)
         dead0 = set(hc._dead_clients)
         ev0 = len(net.events)
+        self.rot_seen = []
         try:
             if name == "get":
                 res = ("ret", hc.get(k1))
@@ -235,8 +246,10 @@ class World:
                 if not (name == "delete"):
                     bad.append(("healthy-owner-wrong-result", f"{desc}: owner never failed, result {res!r}"))
         # M4: while the owner is out of rotation, its keys are served by the servers in rotation
+        # (any contacted server must have been in the rotation at the moment the key was routed)
         if self.names[i] not in rot0 and self.names[i] not in rot1 and owner not in touched:
-            outside = [a for a in touched if self.names[self.addr.index(a)] not in (rot0 | rot1)]
+            routed = set().union(*self.rot_seen) if self.rot_seen else set()
+            outside = [a for a in touched if self.names[self.addr.index(a)] not in (rot0 | rot1 | routed)]
             if outside:
                 bad.append(("rerouted-outside-rotation", f"{desc}: contacted {outside}, not in rotation {sorted(rot0)}"))
             healthy_in_rot = [idx for idx in range(n) if self.names[idx] in rot0 and idx not in self.ever_failed]
